@@ -56,6 +56,7 @@ class HttpRelayClient(RelayPoolClient):
     def __init__(self, relay):
         super(HttpRelayClient, self).__init__(relay.queue, relay.idle_timeout)
         self.conn = None
+        self.last_response = None
         self.ehlo_as = None
         self.url = relay.url
         self.relay = relay
@@ -92,8 +93,20 @@ class HttpRelayClient(RelayPoolClient):
         except TypeError:
             self.ehlo_as = self.relay.ehlo_as
 
+    def _finish_last_response(self):
+        # The previous response must be read completely before the connection
+        # can carry the next request.
+        http_res, self.last_response = self.last_response, None
+        if http_res is not None and self.conn:
+            try:
+                http_res.read()
+            except Exception:
+                self.conn.close()
+                self.conn = None
+
     def _handle_request(self, result, envelope):
         method = self.relay.http_verb
+        self._finish_last_response()
         if not self.conn:
             self._new_conn()
             assert self.conn is not None
@@ -146,6 +159,7 @@ class HttpRelayClient(RelayPoolClient):
 
     def _process_response(self, http_res, result):
         status = '{0!s} {1}'.format(http_res.status, http_res.reason)
+        self.last_response = http_res
         smtp_reply = self._parse_smtp_reply_header(http_res)
         log.response(self.conn, status, http_res.getheaders())
         if status.startswith('2'):
